@@ -42,7 +42,7 @@ CHECKS = {
     "C16": ("exploration", "4.C16", T_STORM + " over a 4-value alphabet with comparison and non-member operations boosted; plain differential checking against std::vector comparisons (no fault dimension)",
             "Differential check on simulator-reached states; exploration level only."),
     "C17": ("exploration", "4.C17", "deterministic simulation replayed across builds: the same seeds (storm histories with fault plans) are executed by the engine compiled as C++11/14/17/20/23 with g++ and clang++ and with GCH_DISABLE_CONCEPTS; per-seed digests of the observable trace (contents, sizes, capacities, allocator ids, return values, exception kinds) must be identical, and every build also runs all oracles",
-            "10 builds over 6 universes; clang 14 -std=c++2b is excluded (its constant-evaluation handling misreports inlined() even in a 10-line program without the harness, see DESIGN.md)."),
+            "10 builds over 7 universes; a seed that runs to its end in one build and not in another (std::terminate, crash or oracle violation in that build only) counts as a divergence; clang 14 -std=c++2b is excluded (its constant-evaluation handling misreports inlined() even in a 10-line program without the harness, see DESIGN.md)."),
     "C18": ("fault_enumeration", "4.C18", T_SWEEP + "; any injected fault that ends in std::terminate is a violation; a call whose noexcept(expr) is true must execute zero may-throw seam events",
             "Dynamic part only enumerates sampled cells; terminate is observed as worker death with the op and fault in flight recorded. The iterator clause is an exhaustive operator grid over short containers (raw and class-type pointers). One known finding (declared-noexcept moves through a throwing allocator construct()) is listed in known_findings.json."),
 }
